@@ -43,6 +43,8 @@ type script struct {
 	advWnd   uint16
 	rcvScale uint
 	bigRcv   bool
+	zeroW    int // forced opening: a write of this many bytes whose end is sequence number 2^32 (or 2^31) exactly, then its ACK
+	zeroP    int // forced opening: peer data of this many bytes ending exactly on the boundary
 	burstG   int // forced first out-of-order burst (0 = none): gap, number of segments
 	burstK   int
 }
@@ -769,6 +771,7 @@ func runScript(seed uint64, idx int, mix string, nev int, kinds map[string]int, 
 	}
 	wsel := r.Intn(8)
 	burstG, burstK := 0, 0
+	zeroW, zeroP := 0, 0
 	if wrapOnly {
 		// C14's TCP corollary: every script places a window edge or the stream across 2^32 / 2^31
 		x := r.Intn(100)
@@ -781,10 +784,15 @@ func runScript(seed uint64, idx int, mix string, nev int, kinds map[string]int, 
 			wsel = 2
 		case x < 68:
 			wsel = 3
-		case x < 78:
+		case x < 72:
 			wsel = 4
-		default:
+		case x < 86:
 			wsel = 5
+		default:
+			wsel = 6
+		}
+		if idx%8 == 3 {
+			wsel = 6 // every run has these placements, whatever the seed
 		}
 		if wsel <= 1 && r.Intn(3) != 0 {
 			// a small receive buffer: a window's worth of data fits in one script
@@ -819,6 +827,24 @@ func runScript(seed uint64, idx int, mix string, nev int, kinds map[string]int, 
 			b = 0
 		}
 		cfg.IRS = b - 1 - uint32(j)
+	case 6:
+		// a cumulative ACK (the peer's or ours) whose acknowledgement number is EXACTLY 0 (2/3) or
+		// 2^31 (1/3): the first write, or the peer's first data, ends on the boundary
+		m := cfg.PeerMSS
+		if m > 120 {
+			m = 120
+		}
+		b := uint32(0)
+		if (idx/16)%3 == 2 {
+			b = 1 << 31
+		}
+		if (idx/8)%2 == 0 {
+			zeroW = []int{1, m, 2*m + 3, 5 * m}[r.Intn(4)]
+			cfg.ISS = b - 1 - uint32(zeroW)
+		} else {
+			zeroP = 1 + r.Intn(m)
+			cfg.IRS = b - 1 - uint32(zeroP)
+		}
 	}
 	if neutral {
 		cfg.ISS, cfg.IRS = 0x10000000+uint32(idx)*7919, 0x30000000+uint32(idx)*104729
@@ -834,6 +860,7 @@ func runScript(seed uint64, idx int, mix string, nev int, kinds map[string]int, 
 	}
 	s.bigRcv = bigRcv
 	s.burstG, s.burstK = burstG, burstK
+	s.zeroW, s.zeroP = zeroW, zeroP
 	plen := 400 + r.Intn(1200)
 	if bigRcv {
 		plen = 300000
@@ -858,6 +885,16 @@ func runScript(seed uint64, idx int, mix string, nev int, kinds map[string]int, 
 	if mtuEvents && r.Intn(3) == 0 {
 		s.count("mtu-recovery-scenario")
 		alive = s.mtuRecovery()
+	}
+	if alive && s.zeroW > 0 {
+		s.count("ack-number-exactly-on-boundary")
+		alive = s.writeN(s.zeroW) && s.pureAck(0) && s.writeN(1+s.r.Intn(s.mss)) && s.pureAck(0)
+	}
+	if alive && s.zeroP > 0 && s.zeroP <= len(s.peer) {
+		s.count("own-ack-exactly-on-boundary")
+		t := netx.TCPSeg{Seq: s.seqOf(0), Ack: s.ackNow(), Flags: netx.FlagAck, Wnd: 30000, Payload: s.peer[:s.zeroP]}
+		alive = s.seg(t)
+		s.pNext = s.zeroP
 	}
 	if alive && s.burstK > 0 {
 		s.count("peer-ooo-burst-straddling")
